@@ -433,13 +433,18 @@ HEADER_NATIVE_TEST = r"""
                 shape[0] = wide;
                 for version in [Version::V1, Version::V2, Version::V3] {
                     let dict = HeaderDict::new(TypeDescriptor::new(Endian::Little, Type::F8), false, shape.clone());
-                    let text_len = dict.to_string().len();
+                    let text = dict.to_string();
+                    let text_len = text.len();
                     let hl_bytes = version.header_len_bytes_len();
                     seen[(8 + hl_bytes + text_len) % 64] = true;
                     let mut out = Vec::new();
                     Header::new(version, dict).write(&mut out).unwrap();
                     assert_eq!(out.len() % 64, 0, "data must start at a multiple of 64 (dict length {text_len})");
                     assert_eq!(*out.last().unwrap(), b'\n', "header must end in a newline (dict length {text_len})");
+                    let start = 8 + hl_bytes;
+                    assert_eq!(&out[start..start + text_len], text.as_bytes(), "the dict text must be written unaltered (dict length {text_len})");
+                    assert!(out[start + text_len..out.len() - 1].iter().all(|&b| b == b' '), "only spaces may follow the dict before the newline (dict length {text_len})");
+                    assert!(out.len() > start + text_len, "the newline must not replace a byte of the dict (dict length {text_len})");
                     let declared = if hl_bytes == 2 { u16::from_le_bytes([out[8], out[9]]) as usize } else { u32::from_le_bytes([out[8], out[9], out[10], out[11]]) as usize };
                     assert_eq!(8 + hl_bytes + declared, out.len(), "header length field (dict length {text_len})");
                 }
@@ -1132,6 +1137,9 @@ def task_read_array_wiring(scratch, tier, seed, logdir):
                 if early:
                     ob.fail("violation", "memory is allocated from the declared (untrusted) shape before any value is read: " + early[0][0][:80])
                 hv = p.state.events[i_v[0]]
+                extra = [show(a) for a in hv[1][2:] if "Header::read" in show(a)]
+                if extra:
+                    ob.fail("violation", "the declared (untrusted) shape reaches the value reader before any value is read: " + extra[0][:120])
                 if "Header::read" not in show(hv[1][1]) and "reader" not in show(hv[1][1]):
                     ob.fail("violation", "the value loop does not continue on the reader the header was read from")
                 nv = p.state.events[i_n[0]]
@@ -1152,6 +1160,36 @@ def task_read_array_wiring(scratch, tier, seed, logdir):
     except (LookupError, ValueError, RuntimeError, KeyError, IndexError) as e:
         ob.fail("inconclusive", f"translator: {type(e).__name__}: {e}")
     return [ob.done()]
+
+
+READ_ARRAY_NATIVE_TEST = r"""
+    #[test]
+    fn kv_npy_declared_shape_is_not_trusted() {
+        // a well-formed v1.0 header that declares far more values than follow must be a diagnosed
+        // error: no allocation sized by the declaration, no panic
+        for shape in ["(2305843009213693952,)", "(2147483648, 1073741824)", "(4611686018427387904, 2)", "(1152921504606846976, 2, 2)"] {
+            for n_values in [0usize, 3] {
+                let mut dict = format!("{{'descr': '<f8', 'fortran_order': False, 'shape': {shape}, }}");
+                while (10 + dict.len() + 1) % 64 != 0 {
+                    dict.push(' ');
+                }
+                dict.push('\n');
+                let mut bytes = b"\x93NUMPY\x01\x00".to_vec();
+                bytes.extend_from_slice(&(dict.len() as u16).to_le_bytes());
+                bytes.extend_from_slice(dict.as_bytes());
+                for i in 0..n_values {
+                    bytes.extend_from_slice(&(i as f64).to_le_bytes());
+                }
+                let result = read_array(&mut &bytes[..]);
+                assert!(result.is_err(), "an npy file declaring shape {shape} with {n_values} values was read as an array");
+            }
+        }
+        // and a file that is what it says is still read
+        let mut ok = Vec::new();
+        write_array(&mut ok, &Array::new(vec![1.0, 2.0, 3.0, 4.0, 5.0, 6.0], Shape(vec![2, 3])).unwrap()).unwrap();
+        assert_eq!(read_array(&mut &ok[..]).unwrap().iter().copied().collect::<Vec<_>>(), vec![1.0, 2.0, 3.0, 4.0, 5.0, 6.0]);
+    }
+"""
 
 
 def task_spectrum_read_wiring(scratch, tier, seed, logdir):
@@ -2741,6 +2779,7 @@ def _native_registry():
         "projection_wiring": dict(crate="sfs-core", file="core/src/spectrum/project.rs", name="kv_projection_history_independent", code=PROJECTION_NATIVE_TEST),
         "fold_wiring": dict(crate="sfs-core", file="core/src/spectrum/folded.rs", name="kv_fold_history_independent", code=FOLD_NATIVE_TEST),
         "project_wiring": dict(crate="sfs-core", file="core/src/spectrum.rs", name="kv_project_against_definition", code=PROJECT_NATIVE_TEST),
+        "read_array_wiring": dict(crate="sfs-core", file="core/src/array/npy.rs", name="kv_npy_declared_shape_is_not_trusted", code=READ_ARRAY_NATIVE_TEST),
         "view_pipeline": dict(crate="sfs-cli", file="cli/tests/kv_view_is_chain_of_steps.rs", name="kv_view_is_chain_of_steps", code=VIEW_NATIVE_TEST, integration=True),
     }
 
